@@ -67,6 +67,43 @@ def impl_ns_helpers(run):
                 run.disagree({"_get_namespace_list": {str(k): v for k, v in a.items()}}, mo, io)
 
 
+def graph_entry_points(run):
+    """the graph constructors that take a namespace dict {index: URI}: key i ends up at index i of the
+    graph's namespace list (gaps filled), whether the dict is dense, gapped or given in another key order"""
+    import glob
+    from opcua_tools import UAGraph
+    rng = run.rng
+    A, B = "http://a.example/types", "http://b.example/inst"
+    # (a file whose model URI is not in the caller's list is left out by design, so every dict names all three)
+    dicts = [{0: UA, 1: A, 2: B}, {0: UA, 2: B, 1: A}, {0: UA, 3: A, 1: B}, {0: UA, 2: A, 5: B}, {2: B, 0: UA, 4: A}, {0: UA, 4: "urn:unused", 2: B, 6: A}]
+    for _ in range(4 if run.tier == "quick" else 40):
+        ks = rng.sample(range(1, 8), 2)
+        d_ = {0: UA, ks[0]: A, ks[1]: B}
+        items = list(d_.items()); rng.shuffle(items)
+        dicts.append(dict(items))
+    with minibase.Scratch() as sc:
+        d = sc.write(sc.sub("ge"), {"a.xml": minibase.DOC_A, "b.xml": minibase.DOC_B})
+        files = sorted(glob.glob(d + "/*.xml"))
+        for dct in dicts:
+            case = {"namespace_dict": {str(k): v for k, v in dct.items()}}
+            for entry, build in (("from_file_list", lambda: UAGraph.from_file_list(list(files), dict(dct))), ("from_path", lambda: UAGraph.from_path(d, dict(dct)))):
+                run.case(dict(case, entry=entry), tag="graph_entry:" + entry)
+                try:
+                    G = build()
+                except Exception as e:  # noqa: BLE001
+                    run.violation(dict(case, entry=entry), {"what": "UAGraph.%s raised with a namespace dict" % entry, "impl": type(e).__name__ + ": " + str(e)[:300]})
+                    return
+                ns = list(G.namespaces)
+                bad = [k for k, v in dct.items() if not (k < len(ns) and ns[k] == v)]
+                once = [u for u in (UA, A, B) if ns.count(u) != 1]
+                # every node is still found under its own URI
+                uris = {ns[n] for n in G.nodes["ns"].unique()} if "ns" in G.nodes.columns else set()
+                if bad or once or not {UA, A, B} <= uris:
+                    run.violation(dict(case, entry=entry), {"what": "UAGraph.%s(namespace_dict): dict key(s) %r are not at that index of graph.namespaces, or a URI is missing/duplicated (%r)" % (entry, bad, once),
+                                                            "impl": ns, "call": "UAGraph.%s(files, namespace_dict)" % entry})
+                    return
+
+
 def explore(run):
     rng = run.rng
     thorough = run.tier == "thorough"
@@ -74,6 +111,9 @@ def explore(run):
     # tie (A): extend_namespace_map (and the NodeId kernel) regenerated from the source; never a verdict by itself
     run.extra["translator_tie"] = core.translator_tie()
     impl_ns_helpers(run)
+    if run.full():
+        return
+    graph_entry_points(run)
     if run.full():
         return
     with minibase.Scratch() as sc:
